@@ -195,12 +195,19 @@ void rfbScaledScreenUpdateRect(rfbScreenInfoPtr screen, rfbScreenInfoPtr ptr, in
 
      /* for each *destination* pixel... */
      for (y = 0; y < h1; y++) {
+       /* The source block of a destination pixel starts where ScaleX/ScaleY map
+        * that pixel (the mapping rfbScaledCorrection is based on), so that full
+        * and partial updates read the same block for the same pixel even if the
+        * scale factor does not divide the screen size. */
+       srcptr = (unsigned char *)(screen->frameBuffer +
+        (ScaleY(ptr, screen, y1 + y) * screen->paddedWidthInBytes));
        for (x = 0; x < w1; x++) {
+         int sx = ScaleX(ptr, screen, x1 + x);
          red = green = blue = 0;
          /* Get the totals for rgb from the source grid... */
          for (w = 0; w < areaX; w++) {
            for (v = 0; v < areaY; v++) {
-             srcptr2 = &srcptr[(((x * areaX) + w) * bytesPerPixel) +
+             srcptr2 = &srcptr[((sx + w) * bytesPerPixel) +
                                (v * screen->paddedWidthInBytes)];
              pixel_value = 0;
 
@@ -244,7 +251,6 @@ void rfbScaledScreenUpdateRect(rfbScreenInfoPtr screen, rfbScreenInfoPtr ptr, in
           }
           dstptr += bytesPerPixel;
        }
-       srcptr += (screen->paddedWidthInBytes * areaY);
        dstptr += (ptr->paddedWidthInBytes - bytesPerLine);
      }
    } else
@@ -252,7 +258,7 @@ void rfbScaledScreenUpdateRect(rfbScreenInfoPtr screen, rfbScreenInfoPtr ptr, in
      for (y = y1; y < (y1+h1); y++) {
        for (x = x1; x < (x1+w1); x++)
          memcpy (&ptr->frameBuffer[(y *ptr->paddedWidthInBytes) + (x * bytesPerPixel)],
-                 &screen->frameBuffer[(y * areaY * screen->paddedWidthInBytes) + (x *areaX * bytesPerPixel)], bytesPerPixel);
+                 &screen->frameBuffer[(ScaleY(ptr, screen, y) * screen->paddedWidthInBytes) + (ScaleX(ptr, screen, x) * bytesPerPixel)], bytesPerPixel);
      }
   }
 }
